@@ -342,6 +342,7 @@ func (cc *Consensus) commit(ctx context.Context, op *LogOp, rpcOp string, redire
 		// Being here means we are the LEADER. We can commit.
 
 		// now commit the changes to our state
+		verifGate("commit.beforeLock", cc)
 		cc.shutdownLock.RLock() // do not shut down while committing
 		_, finalErr = cc.consensus.CommitOp(op)
 		cc.shutdownLock.RUnlock()
